@@ -39,14 +39,20 @@ ANCHORS = [("deap/tools/_hypervolume/_hv.c", []), ("deap/tools/_hypervolume/hv.c
            ("deap/tools/_hypervolume/pyhv.py", []), ("deap/tools/indicator.py", ["hypervolume"]),
            ("deap/benchmarks/tools.py", ["hypervolume"])]
 LEVEL = "proof"
-RULE = ("corpus of 6 fixed regression inputs; exhaustive: every multiset of <=3 points over {0..3}^d, d<=3, with "
-        "ref=3^d (boundary points) and ref=4^d (quick: the 3-point multisets in d=3 are a seeded 1/5 sample; thorough: "
-        "all of them, plus every 4-point multiset for d<=2 and a seeded sample of 150000 4-point multisets in d=3); random: "
-        "1..12 points in 1..7 dimensions in the modes general-position / heavy ties ({0..k}^d, k=1..3) / duplicates / "
-        "dominated points / boundary points / dyadic / negative / per-axis references; every permutation of the points "
-        "for <=5 points; populations of 2..8 individuals with 1..5 objectives (mostly 2..4), every min/max mixture and "
-        "dyadic weights, given and default reference, each wrapper with both backends. Non-trivial = distinct case with "
-        "at least 2 points (individuals) and a positive hypervolume")
+RULE = ("order of the streams: corpus of 6 fixed regression inputs; exhaustive: every multiset of <=3 points over {0..3}^d, "
+        "d<=3, with ref=3^d (boundary points) and ref=4^d (quick: the 3-point multisets in d=3 are a seeded 1/12 sample; "
+        "thorough: all of them, plus every 4-point multiset for d<=2 and a seeded sample of 150000 4-point multisets in d=3); "
+        "wrappers: populations of 2..8 individuals with 1..5 objectives (mostly 2..4), every min/max mixture and dyadic "
+        "weights, wide-range 'tiny contributor' fronts, given and default reference, each wrapper with both backends; calling "
+        "conventions: pyhv, the extension and both wrappers called with plain lists / tuples, integer arrays, float arrays, "
+        "mixed sequence/array arguments, reference all zero or not, always TWICE on the same objects (value exact both times, "
+        "answers equal, caller's objects unchanged); float regime: random doubles in 1..6 dimensions (scales 1e-3..1e3, "
+        "near-coincident points at relative distance 2e-7..1e-12 and a few ulps) against the exact measure of the doubles' "
+        "exact values within 1e-12 relative, indicator index within 1e-12*total of the least exact loss; random exact sets: "
+        "1..12 points in 1..7 dimensions in the modes general-position / heavy ties ({0..k}^d, k=1..3) / duplicates / dominated "
+        "/ boundary / dyadic / negative / per-axis references / anti-chain fronts, every permutation of the points for <=5 "
+        "points; a tie-heavy stream in d=4..7. Every exact hypervolume case also runs the transcribed sweep against pyhv's "
+        "value and internal state. Non-trivial = distinct case with at least 2 points (individuals) and a positive hypervolume")
 EXHAUSTIVE = {"quick": False, "thorough": False}
 TIME_BUDGET = {"quick": 55, "thorough": 840}
 TRUSTED = ["IEEE-754: the test coordinates are small dyadic rationals chosen so that every product and sum formed by the "
@@ -54,16 +60,27 @@ TRUSTED = ["IEEE-754: the test coordinates are small dyadic rationals chosen so 
            "float implementations compute the same numbers",
            "the C compiler and CPython extension loading (the extension is rebuilt from the working tree on every run)",
            "numpy.argmax returns the first maximal index (modelled by argmaxFirst)"]
-ASSUMPTIONS = ["every point weakly dominates the reference point (coordinates <= reference; equality = boundary points allowed); "
+ASSUMPTIONS = ["float regime: the implementations are compared with the exact Rat model evaluated at the doubles' exact values, "
+               "tolerance 1e-12 relative (observed error < 1e-15); no claim about overflow/underflow ranges",
+               "every point weakly dominates the reference point (coordinates <= reference; equality = boundary points allowed); "
                "all points have the dimension of the reference point; 1..12 points; no NaN/inf",
                "the proof covers the specification hvCells/hvSlice (= Lebesgue measure of the union of boxes in every "
-               "dimension) and the two wrappers; the dimension-sweep implementations (_hv.c, pyhv.py) are validated "
-               "against hvSlice by the correspondence run, not verified"]
-EXPLANATION = ("Theorems C15.* : hvCells = Lebesgue measure of the union of boxes (all dimensions), hvSlice = hvCells "
+               "dimension) and the two wrappers; pyhv's algorithm is transcribed (Core/HvSweep.lean) and proved to terminate "
+               "in every dimension and to be correct for d <= 2, for d >= 3 its equality with hvCells is validated by the "
+               "correspondence run (value and internal state), not proved; the C extension (_hv.c, variant 4 with AVL tree) "
+               "is validated against hvSlice only"]
+EXPLANATION = ("The ALGORITHM of pyhv (preProcess, hvRecursive with bounds pruning / ignore marking / remove / reinsert) is "
+               "transcribed in Core/HvSweep.lean and diffed on every hypervolume case against pyhv's value AND its observable "
+               "final state (hvRecursive calls per dimIndex, node order of every dimension list, ignore flags, area and volume "
+               "caches, bounds — read by wrapping Node.__init__/hvRecursive in the harness process) and against hvSlice; proved: "
+               "termination in every dimension with the lists restored, correctness for d <= 2 (sweep_1d, sweep_2d), the slab "
+               "decomposition that the general step implements (all d); open: sweep_eq_hvCells_Statement for d >= 3. "
+               "Theorems C15.* : hvCells = Lebesgue measure of the union of boxes (all dimensions), hvSlice = hvCells "
                "(discrete Fubini), invariances, 1-D/2-D formulas, indicator_least, population_hv. Both implementations are "
                "diffed against hvSlice on exactly representable inputs; an inclusion-exclusion oracle checks them independently.")
 
 KNOWN_ID = "pyhv-tied-coordinates"
+KNOWN_SEQ_ID = "pyhv-sequence-zero-reference"
 
 # ----------------------------------------------------------------------------------------------
 # the compiled extension, rebuilt per run
@@ -111,10 +128,39 @@ def _serve(conn, so):
         outs = []
         for args in req:
             try:
-                outs.append((True, mod.hypervolume(*args)))
+                if len(args) == 3 and args[0] == "twice":
+                    outs.append((True, twice(mod.hypervolume, args[1], args[2])))
+                else:
+                    outs.append((True, mod.hypervolume(*args)))
             except Exception as e:  # noqa
                 outs.append((False, e))
         conn.send(outs)
+
+
+def snapshot(x):
+    """an independent copy of a call argument, for the 'caller's object is unchanged' clause"""
+    if isinstance(x, numpy.ndarray):
+        return x.copy()
+    if isinstance(x, (list, tuple)):
+        return type(x)(snapshot(y) for y in x)
+    return x
+
+
+def same(a, b):
+    if isinstance(a, numpy.ndarray) or isinstance(b, numpy.ndarray):
+        return isinstance(a, numpy.ndarray) and isinstance(b, numpy.ndarray) and a.dtype == b.dtype \
+            and a.shape == b.shape and bool((a == b).all())
+    if isinstance(a, (list, tuple)):
+        return type(a) is type(b) and len(a) == len(b) and all(same(x, y) for x, y in zip(a, b))
+    return type(a) is type(b) and a == b
+
+
+def twice(fn, points, ref):
+    """call fn(points, ref) twice on the SAME objects -> (first, second, arguments unchanged?)"""
+    p0, r0 = snapshot(points), snapshot(ref)
+    v1 = fn(points, ref)
+    v2 = fn(points, ref)
+    return (v1, v2, same(points, p0) and same(ref, r0))
 
 
 class _ExtProxy(object):
@@ -167,6 +213,9 @@ class _ExtProxy(object):
             code = self.proc.exitcode
             self.stop()
             return None, "terminated its process (exit code %s)" % code
+        except BaseException:          # e.g. the per-case watchdog of lib.safe_evaluate fired while waiting
+            self.stop()
+            raise
 
     def many(self, calls):
         """[(points, ref), ...] -> [(ok, value or exception), ...]; a crash is attributed to the call that causes it"""
@@ -179,6 +228,12 @@ class _ExtProxy(object):
 
     def hypervolume(self, points, ref):
         ok, val = self.many([(points, ref)])[0]
+        if ok:
+            return val
+        raise val
+
+    def twice(self, points, ref):
+        ok, val = self.many([("twice", points, ref)])[0]
         if ok:
             return val
         raise val
@@ -339,6 +394,65 @@ def call_hv(name, pts, ref):
         return exact_of_float(pyhv.hypervolume(numpy.array(Pf, dtype=float), numpy.array(Rf, dtype=float)))
 
 
+def pyhv_observe(pts, ref):
+    """Run pyhv._HyperVolume(ref).compute(points) with the Node constructor and hvRecursive wrapped (in this process,
+    nothing in $DEAP_REPO is edited) and return (exact value, canonical text of the observable final state) in the
+    format of the driver op `sweep`: calls per dimIndex, node order of every dimension list, ignore flags, area and
+    volume caches per node (nodes numbered in creation = input order), bounds."""
+    d, n = len(ref), len(pts)
+    Pf = numpy.array([[float(x) for x in p] for p in pts], dtype=float)
+    Rf = numpy.array([float(x) for x in ref], dtype=float)
+    Node, HV = pyhv._MultiList.Node, pyhv._HyperVolume
+    created, calls, seen_bounds = [], [0] * d, []
+    orig_init, orig_rec = Node.__init__, HV.hvRecursive
+
+    def init(self, numberLists, cargo=None):
+        orig_init(self, numberLists, cargo)
+        created.append(self)
+
+    def rec(self, dimIndex, length, bounds):
+        calls[dimIndex] += 1
+        if not seen_bounds:
+            seen_bounds.append(bounds)
+        return orig_rec(self, dimIndex, length, bounds)
+
+    Node.__init__, HV.hvRecursive = init, rec
+    try:
+        with warnings.catch_warnings():
+            warnings.simplefilter("ignore")
+            val = HV(Rf).compute(Pf)
+    finally:
+        Node.__init__, HV.hvRecursive = orig_init, orig_rec
+    if len(created) != n + 1:
+        return exact_of_float(val), "unexpected-node-count:%d" % len(created)
+    ident = {id(x): i for i, x in enumerate(created)}
+    sentinel, nodes = created[0], created[1:]
+
+    def num(x):
+        q = exact_of_float(x)
+        return "non-finite" if q is None else sfr(q)
+    orders = []
+    for i in range(d):
+        row, a = [], sentinel.next[i]
+        while a is not sentinel and len(row) <= n:
+            row.append(ident.get(id(a), -1))
+            a = a.next[i]
+        orders.append(row)
+
+    def l1(xs):
+        xs = list(xs)
+        return ",".join(xs) if xs else "-"
+    bounds = seen_bounds[0] if seen_bounds else []
+    text = " ".join([
+        l1(str(c) for c in calls),
+        ";".join(l1(str(a) for a in row) for row in orders),
+        l1(str(x.ignore) for x in nodes),
+        ";".join(l1(num(v) for v in x.area) for x in nodes),
+        ";".join(l1(num(v) for v in x.volume) for x in nodes),
+        l1("-inf" if b <= -1.0e308 else num(b) for b in bounds)])
+    return exact_of_float(val), text
+
+
 _classes = {}
 
 
@@ -398,6 +512,10 @@ def evaluate(d):
             return eval_pop(d)
         if k == "ind":
             return eval_ind(d)
+        if k == "conv":
+            return eval_conv(d)
+        if k in ("fhv", "find"):
+            return eval_float(d)
     except BadCase as e:
         return Case(d, [], [], None, tag="invalid-description: %s" % e, nontrivial=False)
     raise ValueError(k)
@@ -429,7 +547,11 @@ def eval_hv(d):
     for oi, order in enumerate(orders):
         q = [pts[i] for i in order]
         gc = c_vals[oi]
-        gp = call_hv("py", q, ref)
+        emit = oi < 4 or oi == len(orders) - 1
+        if emit:
+            gp, state = pyhv_observe(q, ref)
+        else:
+            gp = call_hv("py", q, ref)
         bad_c, bad_p = gc != want, gp != want
         if bad_p:
             py_ok = False
@@ -439,13 +561,15 @@ def eval_hv(d):
                 "non-finite" if gc is None else sfr(gc), "non-finite" if gp is None else sfr(gp))
         elif bad_c and orc is not None and orc.startswith("pyhv-only"):
             orc = "hv.c+pyhv: " + orc + " ; and the extension returned %s for order %s" % (gc, order)
-        if oi < 4 or oi == len(orders) - 1:
-            line = "C15 hv %s %s" % (slist(ref), spts(q))
-            lines.append(line)
+        if emit:
+            # the transcribed algorithm (Core/HvSweep.lean) against pyhv's run: value and observable final state;
+            # its first answer token compares the transcription with hvSlice inside the driver
+            lines.append("C15 sweep %s %s" % (slist(ref), spts(q)))
+            expect.append("ok %s %s" % ("non-finite" if gp is None else sfr(gp), state))
+            # the compiled extension against hvSlice (pyhv's value travels in the sweep line, whose first token
+            # says that the transcription equals hvSlice; a wrong pyhv value is reported by the oracle above)
+            lines.append("C15 hv %s %s" % (slist(ref), spts(q)))
             expect.append("non-finite" if gc is None else sfr(gc))
-            if not bad_p:                      # a wrong pyhv value is reported by the oracle above
-                lines.append(line)
-                expect.append(sfr(gp))
     if n <= 4 and dim <= 3:
         # small inputs: the two specification-level definitions answer too (model-internal agreement)
         lines += ["C15 cells %s %s" % (slist(ref), spts(pts)), "C15 ie %s %s" % (slist(ref), spts(pts))]
@@ -531,6 +655,186 @@ def eval_ind(d):
     ties = len(set(loo)) < n
     tag = "ind/%s/m=%d/%s%s" % (name, len(w), "defref" if ref is None else "ref", "/tied-contrib" if ties else "")
     return Case(d, lines, expect, orc, tag=tag, nontrivial=(total > 0))
+
+
+# ----------------------------------------------------------------------------------------------
+# calling conventions: sequences, integer arrays, the same array twice (F23)
+# ----------------------------------------------------------------------------------------------
+
+FORMS = ["list", "tuple", "intarray", "floatarray", "array-listref", "list-arrayref"]
+
+
+def shape_args(form, pts, ref):
+    """the arguments in the requested Python form (coordinates are integers in this stream)"""
+    ip = [[int(x) for x in p] for p in pts]
+    ir = [int(x) for x in ref]
+    if form == "list":
+        return [list(p) for p in ip], list(ir)
+    if form == "tuple":
+        return tuple(tuple(p) for p in ip), tuple(ir)
+    if form == "intarray":
+        return numpy.array(ip, dtype=numpy.int64), numpy.array(ir, dtype=numpy.int64)
+    if form == "floatarray":
+        return numpy.array(ip, dtype=float), numpy.array(ir, dtype=float)
+    if form == "array-listref":
+        return numpy.array(ip, dtype=float), list(ir)
+    if form == "list-arrayref":
+        return [[float(x) for x in p] for p in ip], numpy.array(ir, dtype=float)
+    raise BadCase("unknown form %r" % form)
+
+
+def eval_conv(d):
+    """Every routine called the way a user may call it: plain lists / tuples, integer arrays, and twice on the SAME
+    objects.  Clauses: the value is the exact measure (both times), the two answers are equal, the caller's
+    objects are unchanged."""
+    ref, pts = frs(d["ref"]), [frs(p) for p in d["pts"]]
+    form, target = d["form"], d["target"]
+    if not pts or any(len(p) != len(ref) for p in pts) or any(x.denominator != 1 for p in pts for x in p) \
+            or any(x.denominator != 1 for x in ref) or any(x > r for p in pts for x, r in zip(p, ref)):
+        raise BadCase("malformed case")
+    if not exactness_ok(pts, ref):
+        raise BadCase("coordinates too large for exact binary64 arithmetic")
+    lines, expect, orc = [], [], None
+    who = {"py": "pyhv-only", "c": "hv.c"}
+    if target in ("py", "c"):
+        want = measure(pts, ref)
+        P, R = shape_args(form, pts, ref)
+        if target == "c":
+            v1, v2, unchanged = hv_c().twice(P, R)
+        else:
+            try:
+                with warnings.catch_warnings():
+                    warnings.simplefilter("ignore")
+                    v1, v2, unchanged = twice(pyhv.hypervolume, P, R)
+            except lib.Infra:
+                raise
+            except Exception as e:  # noqa
+                tag = "conv/py/-/%s%s/raised" % (form, "/zero-ref" if all(x == 0 for x in ref) else "")
+                return Case(d, [], [], "pyhv-only: pyhv.hypervolume raised %s: %s when called with %s arguments (points %s, reference %s); "
+                            "the exact hypervolume is %s" % (type(e).__name__, e, form, spts(pts), slist(ref), sfr(want)), tag=tag)
+        g1, g2 = exact_of_float(v1), exact_of_float(v2)
+        if g1 != want:
+            orc = "%s: hypervolume of %s w.r.t. %s passed as %s is %s, got %s" % (who[target], spts(pts), slist(ref), form, sfr(want), v1)
+        elif g2 != g1:
+            orc = "%s: second call on the same %s arguments (%s w.r.t. %s) returned %s after %s" % (who[target], form, spts(pts), slist(ref), v2, v1)
+        elif not unchanged:
+            orc = "%s: the caller's %s arguments (%s w.r.t. %s) were modified by the call" % (who[target], form, spts(pts), slist(ref))
+        if not (target == "py" and g1 != want):
+            lines = ["C15 hv %s %s" % (slist(ref), spts(pts))]
+            expect = ["non-finite" if g1 is None else sfr(g1)]
+    else:
+        # wrappers: d["w"] are +-1 weights, the points are the negated weighted values; ref given in the requested form
+        name = d["impl"]
+        w = frs(d["w"])
+        vals = [[-(x * k) for x, k in zip(p, w)] for p in pts]          # value = -coordinate/weight, weight = +-1
+        module = importlib.import_module("deap.benchmarks.tools") if target == "pop" else importlib.import_module("deap.tools.indicator")
+        pop = population(w, vals)
+        _, R = shape_args(form if form in ("list", "tuple", "intarray", "floatarray") else "list", pts, ref)
+        r0 = snapshot(R)
+        wv0 = [ind.fitness.wvalues for ind in pop]
+        with use_backend(module, name):
+            if target == "pop":
+                a1 = module.hypervolume(pop, R)
+                a2 = module.hypervolume(pop, R)
+            else:
+                if len(pts) < 2:
+                    raise BadCase("indicator needs two individuals")
+                a1 = module.hypervolume(pop, ref=R)
+                a2 = module.hypervolume(pop, ref=R)
+        blame_ = "pyhv-only" if name == "py" else "hv.c"
+        unchanged = same(R, r0) and [ind.fitness.wvalues for ind in pop] == wv0
+        if target == "pop":
+            want = measure(pts, ref)
+            g1, g2 = exact_of_float(a1), exact_of_float(a2)
+            if g1 != want:
+                orc = "%s: population hypervolume with the reference passed as %s (%s w.r.t. %s) is %s, got %s" % (blame_, form, spts(pts), slist(ref), sfr(want), a1)
+            elif g2 != g1:
+                orc = "%s: second call on the same population/reference returned %s after %s" % (blame_, a2, a1)
+            if not (name == "py" and g1 != want):
+                lines = ["C15 pop %s %s %s" % (slist(w), spts(vals), slist(ref))]
+                expect = ["%s %s" % ("non-finite" if g1 is None else sfr(g1), slist(ref))]
+        else:
+            total = measure(pts, ref)
+            loss = [total - measure(pts[:i] + pts[i + 1:], ref) for i in range(len(pts))]
+            i1, i2 = int(a1), int(a2)
+            if not (0 <= i1 < len(pts)) or loss[i1] != min(loss):
+                orc = "%s: indicator with the reference passed as %s returned %r, removing it loses %s, the least loss is %s (%s w.r.t. %s)" % (
+                    blame_, form, a1, sfr(loss[i1]) if 0 <= i1 < len(pts) else "?", sfr(min(loss)), spts(pts), slist(ref))
+            elif i2 != i1:
+                orc = "%s: second call of the indicator on the same population/reference returned %r after %r" % (blame_, a2, a1)
+            if orc is None or name != "py":
+                lines = ["C15 lootol %s %s %d 0" % (slist(ref), spts(pts), i1)]
+                expect = ["within"]
+        if orc is None and not unchanged:
+            orc = "%s: the caller's reference (%s) or the population's fitness values were modified by the call" % (blame_, form)
+    zero = all(x == 0 for x in ref)
+    tag = "conv/%s/%s/%s%s" % (target, d.get("impl", "-"), form, "/zero-ref" if zero else "")
+    return Case(d, lines, expect, orc, tag=tag, nontrivial=len(pts) >= 2)
+
+
+# ----------------------------------------------------------------------------------------------
+# float regime: random doubles, near-coincident points; exact Rat model on the doubles' exact values
+# ----------------------------------------------------------------------------------------------
+
+FTOL = Fr(1, 10 ** 12)
+
+
+def eval_float(d):
+    """d["pts"], d["ref"]: doubles as repr strings.  'fhv': both routines and the population wrapper (weights -1) within
+    1e-12 (relative) of the exact measure of the doubles' exact values; 'find': the indicator's index loses at most
+    1e-12 * total more than the best index (exact losses)."""
+    pf = [[float(x) for x in p] for p in d["pts"]]
+    rf = [float(x) for x in d["ref"]]
+    if not pf or any(len(p) != len(rf) for p in pf) or any(x > r for p in pf for x, r in zip(p, rf)):
+        raise BadCase("malformed case")
+    pts, ref = [[Fr(x) for x in p] for p in pf], [Fr(x) for x in rf]
+    dim, n = len(rf), len(pf)
+    total = measure(pts, ref)
+    lines, expect, orc = [], [], None
+
+    def off(v):
+        q = exact_of_float(v)
+        return q is None or abs(q - total) > FTOL * total
+
+    if d["k"] == "fhv":
+        gc = hv_c().hypervolume([list(p) for p in pf], list(rf))
+        with warnings.catch_warnings():
+            warnings.simplefilter("ignore")
+            gp = pyhv.hypervolume(numpy.array(pf, dtype=float), numpy.array(rf, dtype=float))
+        from deap.benchmarks import tools as btools
+        pop = population([Fr(-1)] * dim, pts)
+        with use_backend(btools, d.get("impl", "c")):
+            gw = btools.hypervolume(pop, numpy.array(rf, dtype=float))
+        bad = [nm for nm, v in (("hv.c", gc), ("pyhv", gp), ("benchmarks.tools.hypervolume", gw)) if off(v)]
+        if bad:
+            orc = "%s: hypervolume of the doubles %r w.r.t. %r is %r (exact value of the exact inputs), returned: extension %r, pyhv %r, population wrapper %r — off by more than 1e-12 relative" % (
+                "+".join(bad), pf, rf, float(total), gc, gp, gw)
+        for nm, v in (("c", gc), ("py", gp)):
+            q = exact_of_float(v)
+            if q is not None:
+                lines.append("C15 hvtol %s %s %s %s" % (slist(ref), spts(pts), sfr(q), sfr(FTOL)))
+                expect.append("within")
+        tag = "fhv/d=%s/n=%s/%s" % (dim if dim <= 3 else "4-6", "1-2" if n <= 2 else ("3-4" if n <= 4 else "5-8"), d.get("mode", "-"))
+        return Case(d, lines, expect, orc, tag=tag, nontrivial=(n >= 2 and total > 0))
+    # find
+    if n < 2:
+        raise BadCase("indicator needs two individuals")
+    indicator = importlib.import_module("deap.tools.indicator")
+    name = d.get("impl", "c")
+    pop = population([Fr(-1)] * dim, pts)
+    with use_backend(indicator, name):
+        got = indicator.hypervolume(pop, ref=numpy.array(rf, dtype=float))
+    idx = int(got)
+    loss = [total - measure(pts[:i] + pts[i + 1:], ref) for i in range(n)]
+    if not (0 <= idx < n):
+        orc = "%s: indicator returned %r for %d individuals" % ("pyhv-only" if name == "py" else "hv.c", got, n)
+    elif loss[idx] - min(loss) > FTOL * total:
+        orc = "%s: indicator returned index %d for the doubles %r w.r.t. %r: removing it loses %r, removing index %d loses only %r (total %r)" % (
+            "pyhv-only" if name == "py" else "hv.c", idx, pf, rf, float(loss[idx]), loss.index(min(loss)), float(min(loss)), float(total))
+    lines = ["C15 lootol %s %s %d %s" % (slist(ref), spts(pts), idx, sfr(FTOL))]
+    expect = ["within"]
+    tag = "find/%s/d=%d/%s" % (name, dim, d.get("mode", "-"))
+    return Case(d, lines, expect, orc, tag=tag, nontrivial=total > 0)
 
 
 # ----------------------------------------------------------------------------------------------
@@ -669,17 +973,124 @@ def exhaustive(tier, rng):
                 # C(67,4) = 766480 multisets: seeded sample
                 sets = (tuple(rng.choice(grid) for _ in range(4)) for _ in range(150000))
             for s in sets:
-                if n == 3 and dim == 3 and not thorough and rng.random() >= 0.2:
+                if n == 3 and dim == 3 and not thorough and rng.random() >= 0.085:
                     continue
                 for r in ("3", "4"):
                     yield {"k": "hv", "mode": "exh-ref%s" % r, "ref": [r] * dim, "pts": [list(p) for p in s]}
+
+
+_SEQ_ZERO = {}
+
+
+def seq_zero_allowed():
+    """The sub-family 'pyhv called with list/tuple points and an all-zero reference' currently fails (see
+    `seq_zero_ref_finding`).  It is generated when the finding is listed in known_findings.json (then it is reported as
+    KNOWN-FINDING) or when the defect is gone (then it simply passes); otherwise it is left out and a PENDING-FINDING
+    line says so — the coordinator decides between fixing /repo and listing the finding."""
+    if "ok" not in _SEQ_ZERO:
+        listed = KNOWN_SEQ_ID in set(k.get("id") for k in lib.load_known("C15"))
+        fixed = True
+        try:
+            with warnings.catch_warnings():
+                warnings.simplefilter("ignore")
+                pyhv.hypervolume(((0.0,), (0.0,)), (0.0,))
+        except TypeError:
+            fixed = False
+        _SEQ_ZERO["ok"] = listed or fixed
+        if not _SEQ_ZERO["ok"]:
+            print("PENDING-FINDING: property=C15 %s: pyhv.hypervolume(((0.,),(0.,)), (0.,)) raises TypeError "
+                  "('bool' object is not iterable): list/tuple points with an all-zero reference and a tied coordinate; "
+                  "this sub-family is not generated until the finding is fixed in /repo or listed" % KNOWN_SEQ_ID)
+    return _SEQ_ZERO["ok"]
+
+
+def conv_cases(rng, count):
+    """calling conventions: small integer point sets (ties, duplicates, boundary), reference zero (points <= 0) or not"""
+    for _ in range(count):
+        dim = rng.choice([1, 2, 2, 3, 4, 5])
+        n = rng.randint(1, 6)
+        kk = rng.choice([2, 3, 9])
+        zero = rng.random() < 0.3
+        if zero:
+            pts = [[-rng.randint(0, kk) for _ in range(dim)] for _ in range(n)]
+            ref = [0] * dim
+        else:
+            off = rng.choice([0, 0, -3])
+            pts = [[rng.randint(0, kk) + off for _ in range(dim)] for _ in range(n)]
+            ref = [kk + off + rng.choice([0, 1, 2]) for _ in range(dim)]
+        if rng.random() < 0.3:      # no ties at all (a permutation per column), still integers
+            cols = [rng.sample(range(n + 1), n) for _ in range(dim)]
+            pts = [[cols[j][i] - (n + 1 if zero else 0) for j in range(dim)] for i in range(n)]
+            ref = [0] * dim if zero else [n + 1] * dim
+        base = {"k": "conv", "ref": [str(x) for x in ref], "pts": [[str(x) for x in p] for p in pts]}
+        form = rng.choice(FORMS)
+        zero = all(x == 0 for x in ref)
+        for target in ("py", "c"):
+            f = form
+            if target == "py" and zero and form in ("list", "tuple", "list-arrayref") and not seq_zero_allowed():
+                f = "floatarray"
+            yield dict(base, form=f, target=target)
+        if rng.random() < 0.5:
+            w = [rng.choice(["1", "-1"]) for _ in range(dim)]
+            form2 = rng.choice(["list", "tuple", "intarray", "floatarray"])
+            for target in ("pop", "ind"):
+                if target == "ind" and n < 2:
+                    continue
+                yield dict(base, form=form2, target=target, impl=rng.choice(["c", "py"]), w=w)
+
+
+def float_pointset(rng):
+    """random doubles in general position, with near-coincident points (relative distance 1e-7 .. a few ulps)"""
+    import math
+    dim = rng.choice([1, 2, 2, 3, 3, 4, 5, 6])
+    n = rng.choice([1, 2, 3, 3, 4, 5, 6, 8])
+    scale = rng.choice([1.0, 1.0, 1.0, 1000.0, 1e-3])
+    pts = [[rng.random() * scale for _ in range(dim)] for _ in range(n)]
+    mode = rng.choice(["general", "near", "near", "ulp"])
+    if mode != "general" and n > 1:
+        for _ in range(rng.randint(1, n)):
+            src = pts[rng.randrange(n)]
+            j = rng.randrange(n)
+            if mode == "near":
+                eps = rng.choice([2e-7, 1e-7, 1e-9, 1e-12])
+                pts[j] = [x * (1 + eps * rng.choice([-1, 1, 3, -2])) for x in src]
+            else:
+                pts[j] = [math.nextafter(x, rng.choice([0.0, 2 * scale])) if rng.random() < 0.7 else x for x in src]
+    if rng.random() < 0.5:
+        ref = [max(p[j] for p in pts) * rng.choice([1.0, 1.1, 1.5]) + rng.choice([0.0, 0.1 * scale]) for j in range(dim)]
+    else:
+        ref = [float(math.ceil(max(p[j] for p in pts) + rng.choice([0, 1]))) for j in range(dim)]
+    return mode, [repr(x) for x in ref], [[repr(x) for x in p] for p in pts]
+
+
+def float_front(rng):
+    """a 2..4-objective front with near-ties of the contributions (differences ~1e-7 of the scale)"""
+    dim = rng.choice([2, 2, 2, 3, 4])
+    n = rng.randint(3, 7)
+    if dim == 2:
+        xs = sorted(rng.random() for _ in range(n))
+        ys = sorted((rng.random() for _ in range(n)), reverse=True)
+        pts = [[xs[i], ys[i]] for i in range(n)]
+    else:
+        pts = [[rng.random() for _ in range(dim)] for _ in range(n)]
+    # near-coincident twin: contributes almost nothing
+    for _ in range(rng.randint(1, 2)):
+        src = pts[rng.randrange(len(pts))]
+        eps = rng.choice([2e-7, 1e-7, 3e-8, 1e-9])
+        twin = [x + eps * rng.choice([-1, 1, 2, -3]) for x in src]
+        pts.insert(rng.randrange(len(pts) + 1), twin)
+    ref = [float(int(max(p[j] for p in pts)) + rng.choice([1, 2])) for j in range(dim)]
+    return "front-near", [repr(x) for x in ref], [[repr(x) for x in p] for p in pts]
 
 
 def generate(tier, rng, mult):
     thorough = tier == "thorough"
     for c in CORPUS:
         yield c
-    # wrappers first (cheap), so that a truncated run still covers them
+    # 1. the exhaustive small domain first (the time budget truncates from the end)
+    for c in exhaustive(tier, rng):
+        yield c
+    # 2. the wrappers
     npop = (6000 if thorough else 700) * mult
     for _ in range(npop):
         w, vals, ref = random_population(rng)
@@ -689,13 +1100,27 @@ def generate(tier, rng, mult):
                 if kind == "pop" and ref is not None and rng.random() < 0.5:
                     dd["reflist"] = True
                 yield dd
-    nrand = (30000 if thorough else 4000) * mult
+    # 3. calling conventions (sequences, integer arrays, the same array twice)
+    for c in conv_cases(rng, (4000 if thorough else 500) * mult):
+        yield c
+    # 4. float regime: random doubles / near-coincident points against the exact model of their exact values
+    nfl = (8000 if thorough else 800) * mult
+    for i in range(nfl):
+        mode, ref, pts = float_pointset(rng)
+        yield {"k": "fhv", "mode": mode, "ref": ref, "pts": pts, "impl": rng.choice(["c", "py"])}
+        if i % 2 == 0:
+            mode, ref, pts = float_front(rng) if rng.random() < 0.7 else (mode, ref, pts)
+            if len(pts) >= 2:
+                for impl in ("c", "py"):
+                    yield {"k": "find", "mode": mode, "ref": ref, "pts": pts, "impl": impl}
+    # 5. random exact point sets
+    nrand = (30000 if thorough else 3000) * mult
     for i in range(nrand):
         mode, ref, pts = random_pointset(rng, thorough)
         kind = "perm" if (len(pts) <= 5 and (len(pts) <= 4 or rng.random() < 0.3)) else "hv"
         yield {"k": kind, "mode": mode, "ref": ref, "pts": pts}
-    # deep stream: the caching / `ignore` logic of both sweeps only works in d >= 4 (C: d >= 5) and errs only on ties
-    ndeep = (40000 if thorough else 4500) * mult
+    # 6. deep stream: the caching / `ignore` logic of both sweeps only works in d >= 4 (C: d >= 5) and errs only on ties
+    ndeep = (40000 if thorough else 3500) * mult
     for i in range(ndeep):
         dim = rng.choice([4, 5, 5, 6, 6, 7, 7])
         n = rng.choice([2, 3, 4, 4, 5, 6, 7, 8, 9, 10, 12])
@@ -708,8 +1133,6 @@ def generate(tier, rng, mult):
                 pts[rng.randrange(n)][rng.randrange(dim)] = off - rng.randint(1, 6)
         kind = "perm" if n <= 4 and rng.random() < 0.5 else "hv"
         yield {"k": kind, "mode": "deep-ties", "ref": [str(top)] * dim, "pts": [[str(x) for x in p] for p in pts]}
-    for c in exhaustive(tier, rng):
-        yield c
 
 
 # ----------------------------------------------------------------------------------------------
@@ -717,6 +1140,18 @@ def generate(tier, rng, mult):
 # ----------------------------------------------------------------------------------------------
 
 def shrink(d):
+    if d["k"] in ("conv", "fhv", "find"):
+        pts, ref = d["pts"], d["ref"]
+        for i in range(len(pts)):
+            if len(pts) > (2 if (d["k"] == "find" or d.get("target") == "ind") else 1):
+                yield dict(d, pts=pts[:i] + pts[i + 1:])
+        for j in range(len(ref)):
+            if len(ref) > 1:
+                e = dict(d, ref=ref[:j] + ref[j + 1:], pts=[p[:j] + p[j + 1:] for p in pts])
+                if "w" in d:
+                    e["w"] = d["w"][:j] + d["w"][j + 1:]
+                yield e
+        return
     if d["k"] in ("hv", "perm"):
         pts, ref = d["pts"], d["ref"]
         if d["k"] == "perm":
@@ -770,16 +1205,37 @@ def f7_construct_present():
     return _F7_MARK
 
 
+def seq_zero_ref_finding(desc, msg):
+    """Finding reported with this delivery (not yet decided by the coordinator): with an all-zero reference point
+    pyhv does not translate — and since F23 no longer converts — the points, so plain list / tuple points stay
+    sequences; as soon as two points share a coordinate value `decorated.sort()` compares two Node objects and
+    `Node.__lt__` = `all(self.cargo < other.cargo)` raises TypeError ('bool' object is not iterable).
+    Key: pyhv called directly, points given as list/tuple, reference all zeros, a tied coordinate value."""
+    if desc.get("k") != "conv" or desc.get("target") != "py" or desc.get("form") not in ("list", "tuple", "list-arrayref"):
+        return False
+    if not msg.startswith("pyhv-only: pyhv.hypervolume raised TypeError: 'bool' object is not iterable"):
+        return False
+    try:
+        pts, ref = [frs(p) for p in desc["pts"]], frs(desc["ref"])
+    except Exception:  # noqa
+        return False
+    if any(x != 0 for x in ref):
+        return False
+    return any(len(set(p[j] for p in pts)) < len(pts) for j in range(len(ref)))
+
+
 def classify(desc, msg, known):
     """Known finding F7: the pure-Python fallback is wrong when coordinates are tied (two points share a value in
     some dimension, or a point shares one with the reference point, i.e. lies on the boundary) in dimension >= 4
     (its `ignore` marks are never consulted below that).  Anything else — in particular any deviation of the compiled
     extension, of pyhv on tie-free input or in d <= 3, or of a pyhv that no longer contains the defective construct —
     is a violation."""
+    if seq_zero_ref_finding(desc, msg):
+        return KNOWN_SEQ_ID
     if not msg.startswith("pyhv-only") or not f7_construct_present():
         return None
     try:
-        if desc["k"] in ("hv", "perm"):
+        if desc["k"] in ("hv", "perm", "conv", "fhv", "find"):
             pts, ref = [frs(p) for p in desc["pts"]], frs(desc["ref"])
         else:
             pts = wobj_exact(frs(desc["w"]), [frs(v) for v in desc["vals"]])
